@@ -86,6 +86,12 @@ def extract_inputs(ctx, model):
             vals[name] = bool(z3.is_true(mv))
         else:
             vals[name] = float(core.z3num_to_frac(mv))
+    if ctx.uf_records:
+        uf = {}
+        for (name, var, argts) in ctx.uf_records:
+            a = [float(core.z3num_to_frac(model.eval(t, model_completion=True))) for t in argts]
+            uf.setdefault(name, []).append((a, float(core.z3num_to_frac(model.eval(var, model_completion=True)))))
+        vals["__uf__"] = uf
     return vals
 
 
